@@ -112,6 +112,7 @@ impl Callback for UnspentCsvDump {
             )?;
         }
 
+        self.writer.flush()?;
         fs::rename(
             self.dump_folder.as_path().join("unspent.csv.tmp"),
             self.dump_folder.as_path().join(format!(
